@@ -201,6 +201,7 @@ job_contracts = {
  "RedunBackendDb.record_job_start": dict(where=f"{DB}:RedunBackendDb.record_job_start", params={"self": REF, "job": REF, "now": OBJ}, returns=REF,
     lib={"Job(": lib_job_row, "self.session.add(": lib_session_add_row, "self.session.commit()": lambda e, n, st, old: T(NONE, "none"),
          "self._executions.pop(": lambda e, n, st, old: e.ctx.app("pending_execution", [REF, STR], REF, [st.env["self"], e.ev(n.args[0], st, old)]),
+         "self._executions.get(": lambda e, n, st, old: e.ctx.app("pending_execution", [REF, STR], REF, [st.env["self"], e.ev(n.args[0], st, old)]),
          "with_defer_constraints(": lambda e, n, st, old: e.opaque("ctx"), "utcnow()": lambda e, n, st, old: e.opaque("now")},
     requires=["forall(r, Ref, not r.added)", "pending_execution(self, job.execution.id).job_id == None"],
     ensures=["result.added", "row_id(result) == job.id", "row_task_hash(result) == job.task.hash", "row_execution_id(result) == job.execution.id",
@@ -225,6 +226,7 @@ JOB_MODULE = Module(
     defs={"row_id": ([REF], STR), "row_task_hash": ([REF], STR), "row_parent_id": ([REF], Opt(STR)), "row_execution_id": ([REF], STR)},
     defs_text="(define-fun row_id ((r Ref)) String (|sattr_row_id| r))\n(define-fun row_task_hash ((r Ref)) String (|sattr_row_task_hash| r))\n"
               "(define-fun row_parent_id ((r Ref)) Opt_String (|sattr_row_parent_id| r))\n(define-fun row_execution_id ((r Ref)) String (|sattr_row_execution_id| r))",
+    hooks={"subscript": lambda e, n, a, k, st: (e.ctx.app("pending_execution", [REF, STR], REF, [st.env["self"], k]) if ast.unparse(n.value) == "self._executions" else None)},
     classes={"self": "RedunBackendDb"}, contracts=job_contracts)
 
 
